@@ -226,7 +226,7 @@ pub fn run(cfg: &Cfg) -> Stats {
         total.oracle_error(format!("only {} CLDR entries found", entries.len()));
     }
     total = total.merge(sweep(cfg, &h, "c06", &|t, st, mode| check_triple(&h, t, st, mode)));
-    let n = cfg.pick(300_000, 6_000_000);
+    let n = cfg.pick(1_000_000, 6_000_000);
     let s = run_strategy(&s_dressed(&h), cfg.seed, "c06-dressed", n, |d, st| check_dressed(&h, d, st));
     total = total.merge(s);
     total.subspace("identifiers biased to CLDR keys / values with dropped components, with variants and extensions, through the maximize() methods (proptest)", n, false);
